@@ -268,9 +268,30 @@ def walk_items(tree):
     return res
 
 
+def run_corpus(ctx):
+    """minimised past failures first (corpus/C02/*.json): each must hold now; a failure is reported under the
+    signature it was found with"""
+    import contextlib
+    import glob
+    import io
+    n = 0
+    d = os.path.join(os.path.dirname(os.path.abspath(__file__)), "..", "..", "corpus", "C02")
+    for f in sorted(glob.glob(os.path.join(d, "*.json"))):
+        rep = json.load(open(f))
+        buf = io.StringIO()
+        with contextlib.redirect_stdout(buf):
+            ok = replay(ctx, rep)
+        n += 1
+        if not ok:
+            ctx.report(rep["signature"], "corpus input %s fails again: %s" % (os.path.basename(f), buf.getvalue()[:300]),
+                       rep["replay"])
+    ctx.coverage["corpus_inputs"] = n
+
+
 def run(ctx):
     _libs()
     IC.quiet()
+    run_corpus(ctx)
     rng = random.Random(ctx.seed * 104729 + 3)
     cov = {}
     t0 = time.time()
